@@ -12,7 +12,8 @@ open Aiortc.Model.Jsep (Sig)
 def AnswersSec (pc : Pc) (m s : MSec) : Prop :=
   s.kind = m.kind ∧ s.mid = m.mid ∧ s.setup ≠ .auto ∧
   (m.kind.isMedia = true → ∃ t ∈ pc.transceivers, Negotiated .offer m t ∧ s.direction = andDir t.direction (revDir m.direction) ∧
-    s.codecs = t.codecs ∧ s.exts = t.exts ∧ s.setup = answerRole (pc.roleOf t.transport))
+    s.codecs = t.codecs ∧ s.exts = t.exts ∧ s.setup = answerRole (pc.roleOf t.transport)) ∧
+  (m.kind.isMedia = false → ∃ s0, pc.sctp = some s0 ∧ s.setup = answerRole (pc.roleOf s0.transport))
 
 theorem answerSecs_ok (pc : Pc) (hu : UniqueMid pc.transceivers) : ∀ (ms : List MSec),
     (∀ m ∈ ms, m.kind.isMedia = true → ∃ t ∈ pc.transceivers, Negotiated .offer m t) →
@@ -34,7 +35,7 @@ theorem answerSecs_ok (pc : Pc) (hu : UniqueMid pc.transceivers) : ∀ (ms : Lis
       | some s =>
         simp only [hs, Option.bind_some] at this
         simp only [this, hr]
-        refine ⟨_, rfl, .cons ⟨?_, rfl, answerRole_definite _, fun hf => by rw [hk] at hf; cases hf⟩ hrel⟩
+        refine ⟨_, rfl, .cons ⟨?_, rfl, answerRole_definite _, (fun hf => by rw [hk] at hf; cases hf), fun _ => ⟨s, hs, rfl⟩⟩ hrel⟩
         simp [Pc.secForSctp, kind_not_media hk]
     · simp only [if_true]
       obtain ⟨t, ht, hN⟩ := hown m (by simp) hk
@@ -44,7 +45,7 @@ theorem answerSecs_ok (pc : Pc) (hu : UniqueMid pc.transceivers) : ∀ (ms : Lis
       have : t1 = t := hu.eq t1 ht1m t ht (by rw [ht1mid, hN.mid]) (by rw [ht1mid]; simp)
       subst this
       simp only [Pc.byMid, ht1, hN.off rfl, hN.mid, hr]
-      refine ⟨_, rfl, .cons ⟨?_, rfl, answerRole_definite _, fun _ => ⟨t1, ht, hN, rfl, rfl, rfl, rfl⟩⟩ hrel⟩
+      refine ⟨_, rfl, .cons ⟨?_, rfl, answerRole_definite _, (fun _ => ⟨t1, ht, hN, rfl, rfl, rfl, rfl⟩), fun hf => by rw [hk] at hf; cases hf⟩ hrel⟩
       simp [Pc.secForTransceiver, hN.kind]
 
 theorem rel2_keys {pc : Pc} {ms r : List MSec} (h : Rel2 (AnswersSec pc) ms r) : keysOfSecs r = keysOfSecs ms := by
@@ -213,7 +214,7 @@ theorem answer_applied {a : Pc} {d : Desc} (ha : WF a) (hty : d.type = .offer) (
     simp only [Prod.mk.injEq] at he
     have := hsame m hm mm hmm hk (by rw [he.1]; rfl)
     rw [this, he.2]
-  obtain ⟨a1, h1, R⟩ := setRemote_ok hv hb hnd hP hacc hfit
+  obtain ⟨a1, h1, R⟩ := setRemote_ok hv hb hnd hP hacc hfit (fun x hx => by rw [hrest]; simp [ha.sctpIn x hx])
   obtain ⟨r1, r2, r3⟩ := R.offer hty
   have hrd : a1.remoteDesc = some d := by simp [Pc.remoteDesc, r2]
   have hown : ∀ m ∈ d.media, m.kind.isMedia = true → ∃ t ∈ a1.transceivers, Negotiated .offer m t := by
@@ -346,7 +347,7 @@ theorem answer_applied {a : Pc} {d : Desc} (ha : WF a) (hty : d.type = .offer) (
     have hsa' : media[j]? = some sa := hsa
     obtain ⟨s0, hs0, hs0sa⟩ := href.get_right j sa hsa'
     have hA := hrel.get j so s0 hso hs0
-    obtain ⟨t, ht, hN, hdir, hcod, hext, _⟩ := hA.2.2.2 hk
+    obtain ⟨t, ht, hN, hdir, hcod, hext, _⟩ := hA.2.2.2.1 hk
     refine ⟨⟨by rw [hs0sa]; exact hA.1, by rw [hs0sa]; exact hA.2.1⟩, ?_⟩
     refine ⟨{ t with currentDirection := some (andDir t.direction (revDir so.direction)) }, ?_, hN.mid, hN.kind, ?_, ?_, ?_, ?_, ?_, ?_⟩
     · rw [hts]; exact localDirections_mem ht (hN.off rfl)
